@@ -274,6 +274,11 @@ def run(ctx):
     # extension: call cancellation on the client side (Cancel.tla), see design-notes/EXT-cancel.md
     import ext_cancel
     ext_cancel.run(ctx)
+    # extension: the statistics / tracing modes of a served object wrap the channel a call is answered on
+    # (ObjectModes.tla, hosted by C12 and C13 as well): in C04's scope is that every call is answered once, on
+    # its own connection, with its own result whatever mode the object is in
+    import ext_modes
+    ext_modes.run(ctx)
     # NextID is one atomic step: concurrent callers of one client never share an identifier
     ids = ctx.harness_json("system", ["c04-ids", "16", "150000" if thorough else "30000"], timeout=1800)
     ctx.failures(ids["failures"])
